@@ -2,7 +2,7 @@
 derive/provide consistency check; engine K harnesses for the slot arithmetic, see harness/src/c05.rs)"""
 from engine_k import runner as K
 
-EVIDENCE = dict(assumptions=['C05.c: revoke_and_ack executed as a region up to the call of provide_secret; ChannelState predicates, SecretKey::from_slice, PublicKey::from_secret_key, PublicKey equality and the signer validation are stubs with free outcomes', 'kernel only: CounterpartyCommitmentSecrets (provide_secret / derive_secret / get_secret / place_secret / get_min_seen_secret) and build_commitment_secret; SHA-256 is an uninterpreted function, the 32-byte seed is symbolic, commitment indices are the top m of the 2^48 range (protocol order)', 'the check of a received secret against the announced commitment point is an EC operation (secp256k1) and is NOT covered; HolderCommitmentPoint advance, release_commitment_secret ordering, signer/broadcaster call sequences, reestablish and restart are schedule-level and outside the claim'])
+EVIDENCE = dict(assumptions=['C05.d: validate_commitment_signed as a whole with <= 2 non-dust HTLCs; build_commitment_transaction, scripts, sighashes, verify_ecdsa (free outcome per call), validate_update_fee and the signer are stubs', 'C05.c: revoke_and_ack executed as a region up to the call of provide_secret; ChannelState predicates, SecretKey::from_slice, PublicKey::from_secret_key, PublicKey equality and the signer validation are stubs with free outcomes', 'kernel only: CounterpartyCommitmentSecrets (provide_secret / derive_secret / get_secret / place_secret / get_min_seen_secret) and build_commitment_secret; SHA-256 is an uninterpreted function, the 32-byte seed is symbolic, commitment indices are the top m of the 2^48 range (protocol order)', 'the check of a received secret against the announced commitment point is an EC operation (secp256k1) and is NOT covered; HolderCommitmentPoint advance, release_commitment_secret ordering, signer/broadcaster call sequences, reestablish and restart are schedule-level and outside the claim'])
 
 
 def run(S):
@@ -12,6 +12,7 @@ def run(S):
     honest_sequence(S, D, 'C05.a', m)
     inconsistent_rejected(S, D, 'C05.a', [2, 4] if S.tier == 'quick' else [2, 4, 6, 8, 16])
     raa_acceptance(S, D)
+    fully_signed_commitment(S, D)
     K.run_property(S, 'C05')
 
 
@@ -88,3 +89,88 @@ def raa_acceptance(S, D):
     S.no_panic(ids[1], E, [], 'no panic on the way (commitment numbers < 2^48)', [b])
     S.witness(ids[2], E, [z3.Not(P('is_awaiting_remote_revoke')), operational, key_ok, pt_match], z3.Not(stored))
     S.validate(ids[3], E, b, n=8, extra_vectors=[(1, 0, 0, 1, 1), (1, 0, 0, 0, 1), (0, 0, 0, 1, 1), (0, 1, 0, 1, 1), (1, 1, 0, 1, 1), (1, 0, 1, 1, 1)])
+
+
+def fully_signed_commitment(S, D):
+    """C05.d: ChannelContext::validate_commitment_signed - what "a fully signed newer commitment" means when the peer's
+    commitment_signed is accepted (only then is the previous commitment revoked). Whole function; the commitment
+    construction, scripts, sighashes, secp256k1 signature verification, the fee re-check and the signer are stubs; the
+    commitment has <= 2 non-dust HTLCs and the message <= 2 HTLC signatures."""
+    import re
+    import z3
+    from engine_m import exec as X
+    from engine_m.session import Binding
+    ids = ['C05.d.fully_signed', 'C05.d.fully_signed.live_states', 'C05.d.nopanic', 'C05.d.witness', 'C05.d.validate']
+    if all(S._skip(o) for o in ids):
+        return
+    NP = 2
+    f = S.fn('validate_commitment_signed')
+    E = S.engine(unwind=NP + 2)
+    E.slice_cap = NP
+    mem = {}
+    args = [E.sym('a%d' % n, t, mem) if t.startswith('&') else X.Opaque('arg%d' % n) for n, t in f.params]
+    cd = E.sym('cdata', "ln::channel::CommitmentData<'_>", mem)
+    verifs = []
+    fee_ok, signer_ok = z3.Bool('env.fee_ok'), z3.Bool('env.signer_ok')
+
+    def h_verify(E_, m, func, argv, guard, mem_, dty, caller):
+        okv = z3.Bool('env.sig%d_valid' % len(verifs))
+        verifs.append((X.zbool(guard), okv))
+        return X.En('Result', z3.If(okv, 0, 1), {0: [X.UNIT], 1: [X.Opaque('secp err')]})
+    for rx, h in [
+        (r'ChannelContext::<SP>::build_commitment_transaction::<', lambda *a: cd),
+        (r'verify_ecdsa$', h_verify),
+        (r'validate_update_fee::<', lambda *a: X.En('Result', z3.If(fee_ok, 0, 1), {0: [X.UNIT], 1: [X.Opaque('err')]})),
+        (r'validate_holder_commitment$', lambda *a: X.En('Result', z3.If(signer_ok, 0, 1), {0: [X.UNIT], 1: [X.UNIT]})),
+        (r'HolderCommitmentTransaction::new$', lambda *a: X.Adt('HolderCommitmentTransaction', {}, base='holder_tx')),
+        (r'FundingScope::is_outbound$', lambda *a: X.B(z3.Bool('env.we_are_funder'))),
+        (r'ChannelError::close$|ToOwned>::to_owned$|^format$|^must_use::<|ScriptBuf as (?:std::ops::)?Deref>::deref$', lambda *a: X.Opaque('err')),
+        (r'p2wsh_signature_hash$|Message::from_digest\w*$|Message::from_slice$', lambda *a: X.En('Result', 0, {0: [X.Opaque('digest')]})),
+        (r'get_counterparty_selected_contest_delay$', lambda *a: X.En('Option', 1, {1: [E.sym('env.csv', 'u16')]})),
+        (r'supports_anchor\w*$', lambda E_, m, func, argv, *r: X.B(z3.Bool('env.' + func.split('::')[-1]))),
+        (r'get_funding_redeemscript$|get_sighash_all$|serialize_compact$|PublicKey::serialize$|serialize_hex::<|build_htlc_transaction$|get_htlc_redeemscript$|SighashCache::<.*>::new$|channel_id$|counterparty_funding_pubkey$|get_holder_pubkeys$|to_public_key$|get_value_satoshis$|get_channel_type$|TrustedCommitmentTransaction::<.*>::keys$|negotiated_feerate_per_kw$|as Clone>::clone$|Index<RangeFull>>::index$|as_ref$|Hash>::from_slice',
+         lambda *a: X.Opaque('opaque helper')),
+    ]:
+        E.models.insert(0, (re.compile(rx), h))
+    rv = S.call(E, f, args, mem)
+    ok = z3.And(S.ret_guard, X.zint(rv.d) == 0)
+    CS = D.struct_fields('CommitmentSigned')
+    n_sig = E.read_path(mem[args[4].cell], (('f', CS.index('htlc_signatures'), 'std::vec::Vec<bitcoin::secp256k1::ecdsa::Signature>'),), mem, True, 'spec').n
+    CD = D.struct_fields('CommitmentData', hint='ln/channel.rs')
+    CT = D.struct_fields('CommitmentTransaction')
+    tx = E.read_path(cd, (('f', CD.index('tx'), 'ln::chan_utils::CommitmentTransaction'),), mem, True, 'spec')
+    htlcs = E.read_path(tx, (('f', CT.index('nondust_htlcs'), 'std::vec::Vec<ln::chan_utils::HTLCOutputInCommitment>'),), mem, True, 'spec')
+    n_htlc = htlcs.n
+    HO = D.struct_fields('HTLCOutputInCommitment')
+    # invariant of a built commitment: every entry of the non-dust list has an output index (asserted by the code)
+    for i in range(NP):
+        E.assume(X.zint(E.read_path(htlcs.elems[i], (('f', HO.index('transaction_output_index'), 'Option<u32>'),), mem, True, 'spec').d) == 1)
+    # only the non-funder can have a fee update announced by the peer (update_fee from the non-funder is refused)
+    CC = D.struct_fields('ChannelContext', hint='ln/channel.rs')
+    pf = E.read_path(mem[args[0].cell], (('f', CC.index('pending_update_fee'), 'Option<(u32, ln::channel::FeeUpdateState)>'),), mem, True, 'spec')
+    pf_state = E.read_path(E.en_payload(pf, 'Some', 1, 0, '(u32, ln::channel::FeeUpdateState)', mem, 'spec'), (('f', 1, 'ln::channel::FeeUpdateState'),), mem, True, 'spec')
+    E.assume(z3.Implies(z3.And(X.zint(pf.d) == 1, X.zint(pf_state.d) == D.variant_index('FeeUpdateState', 'RemoteAnnounced')), z3.Not(z3.Bool('env.we_are_funder'))))
+    if len(verifs) < 2:
+        raise X.Unsupported('expected the commitment signature check and the per-HTLC checks, found %d verify_ecdsa calls' % len(verifs))
+    commit_g, commit_ok = verifs[0]
+    htlc_checks = verifs[1:]
+    n_checked = sum([z3.If(g, 1, 0) for g, _ in htlc_checks])
+    all_valid = z3.And(*[z3.Implies(g, v) for g, v in verifs])
+    panic = z3.Or(*[X.zbool(p[0]) for p in E.panics]) if E.panics else False
+    live = z3.And(n_htlc == 1, commit_ok, fee_ok, signer_ok)
+
+    def line_fn(v):
+        return '%d %d' % (v[0], v[1])
+    first_htlc_sig_ok = z3.Or(*[z3.And(g, v) for g, v in htlc_checks]) if htlc_checks else z3.BoolVal(False)
+    b = Binding('commitment_signed_probe', [n_sig, z3.If(z3.And(*[z3.Implies(g, v) for g, v in htlc_checks]), 1, 0), z3.If(live, 1, 0)], [z3.If(ok, 1, 0)],
+                line_fn=line_fn, which='oracle_tu', panic=panic, via_solver=True, domain=[(0, 2), (0, 1), (1, 1)])
+    claim = z3.Implies(ok, z3.And(n_sig == n_htlc, commit_g, commit_ok, n_checked == n_htlc, all_valid, signer_ok))
+    S.prove(ids[1], E, [live], claim,
+            'restricted to what the live replay can realise (one HTLC; commitment signature, fee check and signer fine): accepted only with exactly one, valid, HTLC signature',
+            [b], bounds='subset of the obligation below (kept separate so that a counterexample lands in the replayable subspace)')
+    S.prove(ids[0], E, [], claim,
+            'a commitment_signed is accepted only if the commitment is FULLY signed: the commitment signature was checked and is valid, the message carries exactly one signature per non-dust HTLC, every one of them was checked against its HTLC transaction and is valid, and the signer accepts the result',
+            [b], bounds='<= %d non-dust HTLCs, <= %d HTLC signatures; commitment construction, scripts, sighashes and secp256k1 verification stubbed (free outcomes)' % (NP, NP))
+    S.no_panic(ids[2], E, [], 'no panic (every non-dust HTLC has an output index)', [b])
+    S.witness(ids[3], E, [n_htlc == 2, n_sig == 2], ok)
+    S.validate(ids[4], E, b, n=4, extra_vectors=[(1, 1, 1), (0, 1, 1), (2, 1, 1), (1, 0, 1)])
